@@ -194,3 +194,9 @@ def scale(c, rm):
         ay = [q for q in rm[1][-c.mdims[1 if c.mop != "abduce" else 0]:] if q]
         base *= max([1] + [1 / q for q in ay if q > 0])
     return min(base, 1 << 20)
+
+
+def gen_q(rng, tier):
+    """exact-rational cases: see qgen.py"""
+    from . import qgen
+    return qgen.conditionals(rng, tier, ops=('mbr', 'deduce', 'deduce_with', 'abduce'))
